@@ -34,6 +34,8 @@ HDR = re.compile(r"(?:,-|╭─)\[ ?([^\]\s]+):(\d+):(\d+) ?\]")
 CODE = re.compile(r"\[([EL]\d+)\]")
 LOC = re.compile(r'Location \{ source_filename: "((?:[^"\\]|\\.)*)", span: (\d+)\.\.(\d+), line_number: (\d+), line_offset: (\d+) \}')
 NAMED_LOC = re.compile(r'(?<![A-Za-z_])name: "((?:[^"\\]|\\.)*)", location: Location \{ source_filename: "((?:[^"\\]|\\.)*)", span: (\d+)\.\.(\d+),')
+# kinds of which the same instance (same locations) twice in one list means a stale location
+DUP_CHECKED = ["UndefinedMember {", "UndefinedVariable {", "UndefinedFunction {", "UndefinedStructure {", "ArgumentTypeMismatch {", "NotMutable {"]
 LEXICAL = re.compile(r'Lexical \{ error: (\w+), location: Location \{ source_filename: "((?:[^"\\]|\\.)*)", span: (\d+)\.\.(\d+),')
 EXPECTATION = re.compile(r'expectation: "((?:[^"\\]|\\.)*)"')
 ANSI = re.compile(rb"\x1b\[[0-9;]*m")
@@ -139,7 +141,7 @@ def corpus_sets():
 
 MISTAKES = ["dup_pub_fn", "dup_pub_const", "dup_pub_struct", "type_error_in_importer", "error_in_imported",
             "unresolved_import", "syntax_error", "undefined_in_two_modules", "cyclic_consts", "cyclic_structs",
-            "cyclic_struct_const", "multibyte_then_error", "triple_duplicate", "lints_in_two_files", "hex_separator_then_error", "deep_nesting", "lexical_error_in_name_position", "skipped_declarations", "long_line_then_error", "same_pub_fn_in_two_modules", "long_type_name"]
+            "cyclic_struct_const", "multibyte_then_error", "triple_duplicate", "lints_in_two_files", "hex_separator_then_error", "deep_nesting", "lexical_error_in_name_position", "skipped_declarations", "long_line_then_error", "same_pub_fn_in_two_modules", "long_type_name", "same_missing_member_twice"]
 
 
 def generated_set(seed, i):
@@ -240,6 +242,11 @@ def generated_set(seed, i):
             long = "ZzAStructureWhoseNameGoesOnForMoreThanFortyCharacters"
             files[sp.files[b]] += ("\nstruct %s\n{\n\tv: i32,\n}\n\nfn zz_long_type()\n{\n\tvar s = %s { v: 1 };\n\tvar q: i32 = s;\n"
                                    "\tvar a: [3][2]&&%s;\n\tvar r: bool = a;\n}\n" % (long, long, long))
+        elif m == "same_missing_member_twice":
+            # a member that was renamed without its uses: the same complaint at several places
+            b = rng.randrange(sp.k)
+            files[sp.files[b]] += ("\nstruct ZzRenamed\n{\n\tcount: i32,\n}\n\nfn zz_uses(r: ZzRenamed) -> i32\n{\n\tvar a = r.total;\n\tvar b = r.total + 1;\n"
+                                   "\tvar c = r.totl;\n\treturn: r.total\n}\n")
         elif m == "triple_duplicate":
             b = rng.randrange(sp.k)
             files[sp.files[b]] += "\nfn zz_tri()\n{\n}\n\nfn zz_tri()\n{\n}\n\nfn zz_tri()\n{\n}\n\nconst ZZ_TRI: i32 = 1;\nconst ZZ_TRI: i32 = 2;\nconst ZZ_TRI: i32 = 3;\n"
@@ -288,6 +295,9 @@ ZOO_CTX = [
     "var q: &&i32 = &&p; &&q = &%s;",
     "var v = %s;",
     "var n = 0x1; n = &%s;",
+    # a call whose first argument is coerced (array to view): which argument is blamed?
+    "var v = zg(a, %s, 7);",
+    "var v = zg(a, true, %s);",
     "var v: [3]i32 = [1, 2, %s];",
     # two-column characters in front of the label, on the same line
     'var w = "\u65e5\u672c\u8a9e"; var v: bool = %s;',
@@ -308,10 +318,14 @@ def zoo_sets(step):
                 continue
             stmt = ctx.replace("%s", ex)
             text = ("struct Zs\n{\n\tm: i32,\n\tarr: [3]i32,\n}\n\nfn zf(q: i32) -> i32\n{\n\treturn: q\n}\n\n"
+                    "fn zg(xs: []i32, flag: bool, n: i32) -> i32\n{\n\treturn: n\n}\n\n"
                     "fn main() -> i32\n{\n\tvar x: i32 = 1;\n\tvar y: u8 = 2;\n\tvar z: u8 = 3;\n\tvar b: bool = true;\n"
                     "\tvar a: [3]i32 = [1, 2, 3];\n\tvar s = Zs { m: 1, arr: [1, 2, 3] };\n\tvar p: &i32 = &x;\n\t"
                     + stmt + "\n\treturn: 0\n}\n")
-            sets.append({"id": "zoo:%d:%d" % (ci, ei), "files": {"zoo.pn": text.encode()}, "order": ["zoo.pn"], "kind": "zoo"})
+            zs = {"id": "zoo:%d:%d" % (ci, ei), "files": {"zoo.pn": text.encode()}, "order": ["zoo.pn"], "kind": "zoo"}
+            if ctx.startswith("var v = zg(a, "):
+                zs["blamed_argument"] = ex      # the other arguments are right: a complaint about an argument is about this one
+            sets.append(zs)
     return sets
 
 
@@ -790,6 +804,7 @@ def check_locations_structured(s, wd, stats):
     viol = []
     starts = set()      # (file, line, column) of the start of every Location of every diagnostic
     label_texts = {}    # (file, line) -> texts under the single-line Locations that start on that line
+    seen_errors = set()
     have_all = True
     for line in r.out.decode(errors="replace").splitlines():
         try:
@@ -800,6 +815,19 @@ def check_locations_structured(s, wd, stats):
             # secondary locations, where the language fixes what they point at
             for c2, d2 in seclabels.check(e, texts, stats):
                 viol.append((c2, d2))
+            # the zoo's calls with one wrong argument: that argument is the one underlined
+            if s.get("blamed_argument") and e.startswith(("ArgumentTypeMismatch {", "ArgumentMissingAddress {")):
+                _v, ef = seclabels.parse_fields(e)
+                got = seclabels.text_at(seclabels.loc_of(ef.get("location")), texts)
+                stats["blamed_arguments_checked"] = stats.get("blamed_arguments_checked", 0) + 1
+                # (a call is located at its callee's name, a cast at its operand...: a leading part will do)
+                if got is not None and not re.search(r"(?<![A-Za-z0-9_])" + re.escape(" ".join(got.split())) + r"(?![A-Za-z0-9_])", " ".join(s["blamed_argument"].split())):
+                    viol.append(("wrong_argument_blamed", "the call's wrong argument is %r but the diagnostic underlines %r: %s" % (s["blamed_argument"], got, e[:160])))
+            # the same diagnostic is not reported twice
+            if e.startswith(tuple(DUP_CHECKED)):
+                if e in seen_errors:
+                    viol.append(("diagnostic_reported_twice", "twice in one list: %s" % e[:240]))
+                seen_errors.add(e)
             for fn0, a0, _b0, _ln0, _lo0 in LOC.findall(e):
                 t0 = texts.get(fn0)
                 if t0 is None:
@@ -1029,7 +1057,7 @@ def run(tier, seed):
         if budget and time.time() - t0 > budget:
             break
     tot = {"runs": 0, "compiler_panics": 0, "sets_with_diagnostics": 0, "render_configs": 0, "locations_checked": 0,
-           "verbose_runs": 0, "named_spans_checked": 0, "messages_checked": 0, "lexical_spans_checked": 0, "secondary_spans_checked": 0, "ambient_runs": 0, "delivery_runs": 0, "quoted_lines_checked": 0, "underlines_checked": 0}
+           "verbose_runs": 0, "named_spans_checked": 0, "messages_checked": 0, "lexical_spans_checked": 0, "secondary_spans_checked": 0, "ambient_runs": 0, "delivery_runs": 0, "quoted_lines_checked": 0, "underlines_checked": 0, "blamed_arguments_checked": 0}
     diag_lists = set()
     by_kind = {}
     multi = 0
@@ -1098,6 +1126,7 @@ def run(tier, seed):
         "delivery_variation_runs": tot["delivery_runs"],
         "quoted_source_lines_checked": tot["quoted_lines_checked"],
         "underlines_checked": tot["underlines_checked"],
+        "blamed_arguments_checked": tot["blamed_arguments_checked"],
         "large_program_run_build_executions": large_runs,
         "aslr_probe_sets": aslr_n,
         "aslr_probe_differences": aslr_diff,
